@@ -135,6 +135,7 @@ let wfeval () =
       List.iter (fun (p, (st, q)) -> add (hexl p); add (if st then "1" else "0"); add (hexl q)) t.tr_outs;
       add (hexl t.tr_content);
       add (match t.tr_command with Ok c -> hexl c | Fail -> "<FAIL>");
+      add (if t.tr_emitted then "1" else "0");
       print_endline (Buffer.contents b)) tasks;
     let l = List.sort compare (List.map (fun (p, c) -> (of_l p, of_l c)) fs) in
     List.iter (fun (p, c) -> Printf.printf "FILE %s %s\n" (hex p) (hex c)) l
